@@ -76,7 +76,7 @@ async fn replife_case(addr: std::net::SocketAddr, certs: &Path, log: &EvLog, run
             }
             "request" => {
                 k += 1;
-                let (by, attempts) = ask(&mut req, k, Duration::from_millis(if running.is_empty() { 0 } else { 4000 })).await;
+                let (by, attempts) = ask(&mut req, k, Duration::from_millis(if running.is_empty() { 0 } else { 8000 })).await;
                 log.emit("result", json!({"k": k, "by": by, "attempts": attempts, "probe": false}));
                 continue;
             }
@@ -85,7 +85,7 @@ async fn replife_case(addr: std::net::SocketAddr, certs: &Path, log: &EvLog, run
         // after every change the topic is probed: who serves now?
         tokio::time::sleep(Duration::from_millis(60)).await;
         k += 1;
-        let (by, attempts) = ask(&mut req, k, Duration::from_millis(if running.is_empty() { 0 } else { 4000 })).await;
+        let (by, attempts) = ask(&mut req, k, Duration::from_millis(if running.is_empty() { 0 } else { 8000 })).await;
         log.emit("result", json!({"k": k, "by": by, "attempts": attempts, "probe": true}));
     }
     for (r, t) in running.iter() {
